@@ -175,7 +175,8 @@ FULL_SWEEP_ARCHS = ["sse2", "sse4_1", "fma3_sse4_2", "avx", "fma3_avx2", "avx512
 class MathCheck:
     """A property decided by xvmath (elementary functions)."""
 
-    def __init__(self, types, rule, bound, extra_args=(), deadline=(900, 14400), assumptions=None):
+    def __init__(self, types, rule, bound, extra_args=(), deadline=(900, 14400), assumptions=None, pre_parts=()):
+        self.pre_parts = list(pre_parts)  # (label, part) run before the math explorer; their results are merged into the evidence
         self.types = types
         self.rule = rule
         self.bound = bound
@@ -198,6 +199,13 @@ class MathCheck:
 
     def run(self, prop, tier, seed):
         t0 = time.time()
+        pre_results = []
+        for label, part in self.pre_parts:
+            r = part(prop, tier, seed)
+            if r is None:
+                print("[vcheck] %s: part %s failed to run" % (prop, label))
+                return 2
+            pre_results.append((label, r[0]))
         drv, mods, run, skipped = self.build(prop)
         os.makedirs(vlib.OUT, exist_ok=True)
         out = os.path.join(vlib.OUT, "%s.%s.result.json" % (prop, tier))
@@ -228,6 +236,23 @@ class MathCheck:
             print("[vcheck] explorer failed with status %d" % p.returncode)
             return 2
         res = json.load(open(out))
+        for label, pres in pre_results:
+            for k in ("states", "transitions", "distinct_nontrivial", "violations_unknown", "violations_total"):
+                res[k] = int(res.get(k, 0)) + int(pres.get(k, 0))
+            res["exhaustive"] = bool(res.get("exhaustive", False)) and bool(pres.get("exhaustive", False))
+            res.setdefault("notes", [])
+            res["notes"] += ["[%s] %s" % (label, n) for n in pres.get("notes", [])]
+            res.setdefault("per_op", {})
+            for k, v in pres.get("per_op", {}).items():
+                res["per_op"]["%s:%s" % (label, k)] = v
+            for k in ("by_finding", "by_key"):
+                res.setdefault(k, {})
+                for kk, vv in pres.get(k, {}).items():
+                    res[k][kk] = res[k].get(kk, 0) + vv
+            res.setdefault("violations", [])
+            res["violations"] += pres.get("violations", [])
+            res.setdefault("vacuous_ops", [])
+            res["vacuous_ops"] += pres.get("vacuous_ops", [])
         res["wall_s"] = time.time() - t0
         bound = self.bound[tier] if isinstance(self.bound, dict) else self.bound
         extra = {"disagreements_checked": res.get("disagreements_checked", 0)}
@@ -858,7 +883,8 @@ CHECKS = {
         "thorough": "exact: the full 13^2 / 8^3 subject products; elementary functions: about 6000 subject values (+-8-ulp switch-point windows, every float binade / every 8th double binade, k/2 up to 180); otherwise as quick"}),
     "C14": MathCheck("float,double", RULE_MATH + "; for C14 the judged quantity is the number of iterations of the data-dependent loops of one call (hook XSIMD_VERIF_LOOP_TICK) against the frozen constants of DESIGN.md 8.3, a call is aborted and reported after 1000 iterations, and a watchdog reports any kernel call that does not return within 30 s", {
         "quick": "the C10 and C11 quick argument spaces of every elementary function, both stream orders (so that lanes of very different magnitude share a batch); pow(x, n) for 40 exponents n (0, +-1, small, 2^k -+ 1, the extremes of the type, their neighbours and halves) of int16/32/64 and uint16/32/64 x 24 values of x; all 22 architectures",
-        "thorough": "the quick spaces on all 22 architectures in both stream orders, plus all 2^32 float32 arguments of every unary function on the 9 kernel-distinct architectures (see C10; both stream orders for the functions that contain hooked loops, lgamma and tgamma), and the C11 thorough lattice"}, extra_args=["--ticks"]),
+        "thorough": "the quick spaces on all 22 architectures in both stream orders, plus all 2^32 float32 arguments of every unary function on the 9 kernel-distinct architectures (see C10; both stream orders for the functions that contain hooked loops, lgamma and tgamma), and the C11 thorough lattice"}, extra_args=["--ticks"],
+        pre_parts=[("exact-operations", DrivePart(["int", "fp", "cmp", "conv"], ["--placement", "--timing", "--props", "C01,C02,C03,C06,C07,C08"]))]),
     "C15": CpuidCheck(),
     "C18": AllocCheck(),
     "C19": Composite([
